@@ -250,7 +250,7 @@ Proof.
     apply loop_Forall2; intros; [apply field_ext_refl | apply upd_field_ext]. }
   destruct er1 as [x|].
   - cbn. split; [reflexivity|]. split; [reflexivity|]. apply list_ext_same. exact H1.
-  - set (news := sort_by (fun f => o_new o nsn (e_name e) (f_name f)) (new_fields e q)).
+  - set (news := sort_by f_short (new_fields e q)).
     destruct (insert_new news fs1) as [fs2 er2] eqn:Hi.
     destruct (insert_new_ext news fs1) as [added [Heq [Hr Hn]]]. rewrite Hi in Heq. cbn in Heq. subst fs2.
     assert (Hext : list_ext field_ext (fun f => readable f /\ ~ In (f_name f) (map f_name (e_fields e))) (e_fields e) (fs1 ++ added)).
@@ -296,9 +296,9 @@ Qed.
 (* whatever the verdict and whatever the iteration orders: every namespace, entity and field that
    existed is still there with the same name, storage identifier and type; what was added to an
    existing entity can be read on old rows *)
-Theorem upd_ext : forall o sys M v, model_ext (m_nss M) (m_nss (fst (upd o sys M v))).
+Lemma apply_upd_ext : forall o sys M v, model_ext (m_nss M) (m_nss (fst (apply_upd o sys M v))).
 Proof.
-  intros. unfold upd. destruct (parse (if sys then 0 else 1) v) as [P|e]; [|apply model_ext_refl].
+  intros. unfold apply_upd. destruct (parse (if sys then 0 else 1) v) as [P|e]; [|apply model_ext_refl].
   destruct (ns_check_fails sys P); [apply model_ext_refl|].
   destruct (loop n_name (o_ns o) (upd_ns o sys P) (m_nss M)) as [nss er] eqn:Hl.
   assert (H1 : Forall2 ns_ext (m_nss M) nss).
@@ -308,6 +308,19 @@ Proof.
   - apply list_ext_same. exact H1.
   - exists nss, (new_nss (m_nss M) P). split; [reflexivity|]. split; [exact H1|].
     rewrite Forall_forall. intros p Hp. apply (new_nss_fresh (m_nss M) P). exact Hp.
+Qed.
+
+(* update_with: the result of apply_update on the clone when accepted, self otherwise *)
+Lemma upd_cases : forall o sys M v,
+  (snd (apply_upd o sys M v) = None /\ upd o sys M v = apply_upd o sys M v) \/
+  (exists x, snd (apply_upd o sys M v) = Some x /\ upd o sys M v = (M, Some x)).
+Proof.
+  intros. unfold upd. destruct (apply_upd o sys M v) as [M' [x|]]; [right; exists x; split; reflexivity | left; split; reflexivity].
+Qed.
+
+Theorem upd_ext : forall o sys M v, model_ext (m_nss M) (m_nss (fst (upd o sys M v))).
+Proof.
+  intros. destruct (upd_cases o sys M v) as [[_ ->] | [x [_ ->]]]; [apply apply_upd_ext | apply model_ext_refl].
 Qed.
 
 (* ------------------------------------------------------------------ well-formedness *)
@@ -518,7 +531,7 @@ Proof.
   { replace fs1 with (fst (loop f_name (o_fld o nsn (e_name e)) (upd_field (e_fields q)) (e_fields e))) by (rewrite Hl; reflexivity).
     apply loop_map_inv. intros a _. apply upd_field_ext. }
   destruct er1; [exact H1|].
-  set (news := sort_by (fun f => o_new o nsn (e_name e) (f_name f)) (new_fields e q)).
+  set (news := sort_by f_short (new_fields e q)).
   assert (H2 : wf_fields (fst (insert_new news fs1))).
   { apply insert_new_wf; [exact H1| |].
     - apply (Permutation_NoDup (l := map f_name (new_fields e q))).
@@ -618,9 +631,9 @@ Proof.
 Qed.
 
 (* whatever the verdict and the iteration orders, the model stays free of collisions *)
-Theorem upd_wf : forall o sys M v, wf_model (m_nss M) -> wf_model (m_nss (fst (upd o sys M v))).
+Lemma apply_upd_wf : forall o sys M v, wf_model (m_nss M) -> wf_model (m_nss (fst (apply_upd o sys M v))).
 Proof.
-  intros o sys M v Hwf. unfold upd.
+  intros o sys M v Hwf. unfold apply_upd.
   destruct (parse (if sys then 0 else 1) v) as [P|e] eqn:Hparse; [|exact Hwf].
   apply parse_wf in Hparse.
   destruct (ns_check_fails sys P) eqn:Hchk; [exact Hwf|].
@@ -681,6 +694,11 @@ Proof.
       unfold sys_rule. destruct sys.
       * destruct (Hsysid eq_refl r HrP) as [-> ->]. reflexivity.
       * destruct (Husr eq_refl r HrP) as [Hne Hge]. apply N.eqb_neq in Hne. rewrite Hne. exact Hge.
+Qed.
+
+Theorem upd_wf : forall o sys M v, wf_model (m_nss M) -> wf_model (m_nss (fst (upd o sys M v))).
+Proof.
+  intros o sys M v Hwf. destruct (upd_cases o sys M v) as [[_ ->] | [x [_ ->]]]; [apply apply_upd_wf; exact Hwf | exact Hwf].
 Qed.
 
 Lemma wf_model_nil : wf_model [].
